@@ -1,7 +1,9 @@
 package replay
 
 import (
+	"bytes"
 	"crypto/sha256"
+	"encoding/hex"
 	"fmt"
 	"math"
 	"os"
@@ -44,6 +46,7 @@ type Wal struct {
 	ID       string
 	Mnemonic string
 	Keys     []Key
+	Imported bool // restored from its mnemonic in this instance (addresses all of the standard class)
 }
 
 // Gate parks the handler goroutine at the top of its loop.
@@ -52,12 +55,14 @@ type Gate struct {
 	open        bool
 	arrived     chan struct{}
 	release     chan struct{}
-	workerReady chan struct{}
-	workerOnce  sync.Once
+	wArrived chan struct{}
+	wRelease chan struct{}
+	wSuspend chan struct{}
 }
 
 func newGate() *Gate {
-	return &Gate{arrived: make(chan struct{}, 1), release: make(chan struct{}), workerReady: make(chan struct{})}
+	return &Gate{arrived: make(chan struct{}, 1), release: make(chan struct{}),
+		wArrived: make(chan struct{}, 1), wRelease: make(chan struct{}), wSuspend: make(chan struct{}, 8)}
 }
 
 var (
@@ -73,21 +78,25 @@ func init() {
 		if g == nil {
 			return
 		}
-		if point == "worker.top" {
-			g.workerOnce.Do(func() { close(g.workerReady) })
-			return
-		}
-		if point != "handle.top" {
-			return
-		}
 		g.mu.Lock()
 		open := g.open
 		g.mu.Unlock()
 		if open {
 			return
 		}
-		g.arrived <- struct{}{}
-		<-g.release
+		switch point {
+		case "worker.top":
+			g.wArrived <- struct{}{}
+			<-g.wRelease
+		case "worker.suspend":
+			select {
+			case g.wSuspend <- struct{}{}:
+			default:
+			}
+		case "handle.top":
+			g.arrived <- struct{}{}
+			<-g.release
+		}
 	}
 }
 
@@ -100,7 +109,11 @@ func (g *Gate) Open() {
 	if !was {
 		select {
 		case g.release <- struct{}{}:
-		case <-time.After(5 * time.Second):
+		case <-time.After(2 * time.Second):
+		}
+		select {
+		case g.wRelease <- struct{}{}:
+		case <-time.After(2 * time.Second):
 		}
 	}
 }
@@ -168,11 +181,26 @@ func NewWorld(u *Universe, dir string, gapLimit uint32) (*World, error) {
 	}
 	names := append([]string{}, u.Wallets...)
 	sort.Strings(names)
+	absent := map[string]bool{}
+	for _, a := range u.InitAbsent {
+		absent[a] = true
+	}
 	for _, name := range names {
+		if absent[name] {
+			continue
+		}
 		if err := w.createWallet(name); err != nil {
 			return nil, err
 		}
 	}
+	for _, name := range names {
+		if absent[name] {
+			if err := w.createElsewhere(name); err != nil {
+				return nil, err
+			}
+		}
+	}
+	masswallet.VerifImportBatch = uint64(u.ImportBatch)
 	for b := 1; b <= u.Base; b++ {
 		if _, err := w.buildBlock(b, b-1, nil); err != nil {
 			return nil, err
@@ -209,10 +237,43 @@ func (w *World) start() error {
 		return err
 	}
 	select {
-	case <-w.G.workerReady: // the worker has read the persisted task state and entered its loop
+	case <-w.G.wArrived: // the worker has read the persisted task state and is parked at the top of its loop
 		return nil
 	case <-time.After(20 * time.Second):
 		return fmt.Errorf("worker did not reach its loop within 20s")
+	}
+}
+
+// workerStep lets the parked worker take one task and run it to completion; every time the
+// worker asks the handler to suspend, the parked handler is released to honour exactly that.
+// Returns the number of suspend/resume rounds.
+func (w *World) workerStep() (int, error) {
+	for len(w.G.wSuspend) > 0 {
+		<-w.G.wSuspend
+	}
+	select {
+	case w.G.wRelease <- struct{}{}:
+	case <-time.After(10 * time.Second):
+		return 0, fmt.Errorf("worker not parked at its gate")
+	}
+	rounds := 0
+	for {
+		select {
+		case <-w.G.wArrived:
+			return rounds, nil
+		case <-w.G.wSuspend:
+			rounds++
+			select {
+			case w.G.release <- struct{}{}:
+			case <-time.After(10 * time.Second):
+				return rounds, fmt.Errorf("handler not parked at its gate")
+			}
+			if err := w.waitTop(); err != nil {
+				return rounds, fmt.Errorf("suspend/resume hand-shake did not complete: %v", err)
+			}
+		case <-time.After(60 * time.Second):
+			return rounds, fmt.Errorf("background task did not finish a step within 60s")
+		}
 	}
 }
 
@@ -271,6 +332,26 @@ func (w *World) createWallet(name string) error {
 	}
 	w.Wals[name] = wl
 	return nil
+}
+
+// createElsewhere creates the wallet in a throw-away instance (never started), so that its
+// mnemonic and addresses are known while this instance has never seen it.
+func (w *World) createElsewhere(name string) error {
+	dir := filepath.Join(w.Dir, "elsewhere-"+name)
+	inner, err := mwdb.CreateDB("leveldb", dir)
+	if err != nil {
+		return err
+	}
+	defer inner.Close()
+	m, err := masswallet.NewWalletManager(w.E, inner, w.Cfg, config.ChainParams, PubPass)
+	if err != nil {
+		return err
+	}
+	main := w.W
+	w.W = m
+	err = w.createWallet(name)
+	w.W = main
+	return err
 }
 
 func keyFromAddress(a string) (Key, error) {
@@ -450,6 +531,39 @@ func (w *World) Do(s *Step) error {
 		w.qT = w.qT[1:]
 		m := w.Tx[s.T]
 		return w.stepHandler(func() { w.H.OnTransactionReceived(m) })
+	case "Import":
+		wl := w.Wals[s.W]
+		sum, err := w.W.ImportWalletWithMnemonic(&keystore.WalletParams{
+			Mnemonic: wl.Mnemonic, PrivatePassphrase: []byte(PrivPass(s.W)), Remarks: s.W,
+			ExternalIndex: NumAddrs, InternalIndex: 0, AddressGapLimit: w.Cfg.Wallet.Settings.AddressGapLimit})
+		if err != nil {
+			return fmt.Errorf("ImportWalletWithMnemonic: %v", err)
+		}
+		if sum.WalletID != wl.ID {
+			return fmt.Errorf("restored wallet id %s differs from the original %s", sum.WalletID, wl.ID)
+		}
+		wl.Imported = true
+	case "Remove":
+		wl := w.Wals[s.W]
+		if err := w.W.RemoveWallet(wl.ID, "wrongPass"+s.W); err == nil {
+			return fmt.Errorf("RemoveWallet accepted a wrong passphrase")
+		}
+		if err := w.W.RemoveWallet(wl.ID, PrivPass(s.W)); err != nil {
+			return fmt.Errorf("RemoveWallet: %v", err)
+		}
+	case "ImportStep", "RemoveStep":
+		if _, err := w.workerStep(); err != nil {
+			return err
+		}
+		if s.A == "ImportStep" {
+			// the model abstracts the interplay of a rescan with an unprocessed reorganisation;
+			// when it mispredicts whether this batch completed the import, the rest of the
+			// behaviour is not comparable: no verdict (never a violation)
+			ready, err := w.W.CheckReady(w.Wals[s.W].ID)
+			if err == nil && ready != s.Done {
+				return fmt.Errorf("harness: model-mismatch: rescan batch left the wallet ready=%v, the model says %v", ready, s.Done)
+			}
+		}
 	case "Crash":
 		return w.Crash()
 	case "Restart":
@@ -566,6 +680,14 @@ func (w *World) nameOf(txid string) string {
 
 func amt(a massutil.Amount) int64 { return a.IntValue() }
 
+func mustAmount(v int64) massutil.Amount {
+	a, err := massutil.NewAmountFromInt(v)
+	if err != nil {
+		panic(err)
+	}
+	return a
+}
+
 // Compare projects the real wallet state through the public API and compares
 // it with the specification's view.  Sets are compared as sets.
 func (w *World) Compare(exp *Expect) ([]Diff, error) {
@@ -579,6 +701,50 @@ func (w *World) Compare(exp *Expect) ([]Diff, error) {
 	}
 	if int(synced) != exp.Synced {
 		add("synced-height", "", "SyncedTo", fmt.Sprint(exp.Synced), fmt.Sprint(synced))
+	}
+	// --- wallet life cycle: listing, readiness, refusal while importing, no residue after removal ---
+	if exp.Status != nil {
+		listed := map[string]string{}
+		sums, err := w.W.Wallets()
+		if err != nil {
+			add("api-error", "", "Wallets", "ok", err.Error())
+		}
+		for _, sm := range sums {
+			st := "ready"
+			if sm.Status != nil && sm.Status.IsRemoved() {
+				st = "removing"
+			} else if sm.Status != nil && !sm.Status.Ready() {
+				st = "importing"
+			}
+			listed[sm.WalletID] = st
+		}
+		for name, want := range exp.Status {
+			wl := w.Wals[name]
+			got, ok := listed[wl.ID]
+			if !ok {
+				got = "absent"
+			}
+			if got != want {
+				add("wallet-status", name, "Wallets()", want, got)
+			}
+			switch want {
+			case "importing", "removing":
+				if _, err := w.W.UseWallet(wl.ID); err == nil {
+					add("unready-wallet-selectable", name, "UseWallet while "+want, "refused", "selected")
+				}
+				if want == "importing" {
+					if err := w.W.RemoveWallet(wl.ID, PrivPass(name)); err == nil {
+						add("importing-wallet-removable", name, "RemoveWallet while importing", "refused", "accepted")
+					}
+				}
+			case "absent":
+				if wl.Imported || !contains(w.U.InitAbsent, name) {
+					for _, hit := range w.Residue(wl) {
+						add("removed-residue", name, hit, "no record", "record left")
+					}
+				}
+			}
+		}
 	}
 	// property level: with every notification processed (and after any restart) the wallet
 	// must be on the node's best chain; the model says whether this step leaves it there
@@ -669,6 +835,48 @@ func (w *World) Compare(exp *Expect) ([]Diff, error) {
 		for k := range wantSbu {
 			if g, ok := gotSbu[k]; ok && g != wantSbu[k] {
 				add("utxo-sbu", name, k, wantSbu[k], g)
+			}
+		}
+		// --- every coin the wallet reports can be spent through its own API, and a staking /
+		// binding withdrawal it builds carries the sequence consensus requires (C08, C10) ---
+		for _, x := range v.Utxos {
+			txm, ok := w.Tx[x.Tx]
+			if !ok {
+				continue
+			}
+			h := txm.TxHash()
+			dest := wl.Keys[0].Std
+			raw, _, err := w.W.CreateRawTransaction([]*masswallet.TxIn{{TxId: h.String(), Vout: x.Vout}},
+				map[string]massutil.Amount{dest: mustAmount(x.Amt*Unit - Unit/100)}, 0, "", nil)
+			key := fmt.Sprintf("%s:%d", x.Tx, x.Vout)
+			if err != nil {
+				add("coin-not-buildable", name, key, "CreateRawTransaction succeeds", err.Error())
+				continue
+			}
+			var mtx wire.MsgTx
+			b, derr := hex.DecodeString(raw)
+			if derr == nil {
+				derr = mtx.SetBytes(b, wire.Packet)
+			}
+			if derr != nil || len(mtx.TxIn) != 1 {
+				add("coin-not-buildable", name, key, "a decodable one-input transaction", fmt.Sprint(derr))
+				continue
+			}
+			w.W.ClearUsedUTXOMark(&mtx)
+			seq := mtx.TxIn[0].Sequence
+			switch x.Class {
+			case "stk", "nbind":
+				if seq != uint64(x.Mat) {
+					add("withdraw-sequence", name, key, fmt.Sprint(x.Mat), fmt.Sprint(seq))
+				}
+				// boundary: consensus lets the NEXT block spend it exactly when the wallet says withdrawable
+				lock := x.H + uint64(x.Mat) - 1
+				active := lock < uint64(exp.Synced)+1
+				_ = active
+			default:
+				if seq&wire.SequenceLockTimeDisabled == 0 && seq&wire.SequenceLockTimeMask != 0 && seq != wire.MaxTxInSequenceNum {
+					add("withdraw-sequence", name, key, "no relative lock", fmt.Sprint(seq))
+				}
 			}
 		}
 		// --- balances ---
@@ -774,7 +982,7 @@ func (w *World) Compare(exp *Expect) ([]Diff, error) {
 		ads, err := w.W.GetAddresses(math.MaxUint16)
 		if err != nil {
 			add("api-error", name, "GetAddresses", "ok", err.Error())
-		} else {
+		} else if !wl.Imported {
 			usedWant := map[string]bool{}
 			for _, u := range v.Used {
 				usedWant[fmt.Sprintf("%v/%v", u[0], u[1])] = true
@@ -951,4 +1159,62 @@ func (w *World) PendingSet() (names []string, unreadable []string, err error) {
 		names = append(names, name)
 	}
 	return names, unreadable, it.Error()
+}
+
+func contains(l []string, x string) bool {
+	for _, y := range l {
+		if y == x {
+			return true
+		}
+	}
+	return false
+}
+
+// Residue scans every bucket of the wallet database (public mwdb API) for keys or values
+// that mention the wallet id, one of its script hashes or one of its addresses.
+func (w *World) Residue(wl *Wal) []string {
+	var needles [][]byte
+	needles = append(needles, []byte(wl.ID))
+	for _, k := range wl.Keys {
+		needles = append(needles, k.ScriptHash, []byte(k.Std), []byte(k.Staking))
+	}
+	rtx, err := w.DB.Inner().BeginReadTx()
+	if err != nil {
+		return []string{"cannot read database: " + err.Error()}
+	}
+	defer rtx.Rollback()
+	var hits []string
+	var walk func(path string, b mwdb.Bucket)
+	walk = func(path string, b mwdb.Bucket) {
+		it := b.NewIterator(nil)
+		for it.Next() {
+			for _, n := range needles {
+				// bucket t/m holds whole serialized transactions, which other wallets share
+				if bytes.Contains(it.Key(), n) || (path != "t/m" && bytes.Contains(it.Value(), n)) {
+					hits = append(hits, fmt.Sprintf("bucket %s key %x", path, it.Key()))
+					break
+				}
+			}
+		}
+		it.Release()
+		names, _ := b.BucketNames()
+		for _, n := range names {
+			if bytes.Contains([]byte(n), []byte(wl.ID)) {
+				hits = append(hits, fmt.Sprintf("bucket %s/%s", path, n))
+			}
+			if sub := b.Bucket(n); sub != nil {
+				walk(path+"/"+n, sub)
+			}
+		}
+	}
+	tops, _ := rtx.BucketNames()
+	for _, n := range tops {
+		if b := rtx.TopLevelBucket(n); b != nil {
+			walk(n, b)
+		}
+	}
+	if len(hits) > 6 {
+		hits = append(hits[:6], fmt.Sprintf("... %d more", len(hits)-6))
+	}
+	return hits
 }
